@@ -238,7 +238,7 @@ pub fn gen_world(r: &mut Rng, o: &GenOpts) -> World {
     for (i, name) in cr_names.iter().take(ncr).enumerate() {
         let remaining_crates = ncr - i - 1;
         let wide = o.max_files > 40;
-        let maxf = (files_left - remaining_crates).min(if wide { 120 } else { 5 }).max(1);
+        let maxf = (files_left - remaining_crates).min(if wide { o.max_files / 2 } else { 5 }).max(1);
         let nf = if wide { maxf } else { r.range(1, maxf as u64) as usize };
         files_left -= nf;
         let mut fs: Vec<String> = FILES.iter().map(|s| s.to_string()).collect();
